@@ -158,7 +158,10 @@ class BodyMixin:
             b = self._get_body_string()
             if not b:
                 return None
-            return json_mod.loads(b)
+            try:
+                return json_mod.loads(b)
+            except ValueError:
+                self._raise(BodyParsingError('Invalid JSON body'), RequestError)
         return None
 
     @cache_in('environ[ ombott.request.post ]', read_only=True)
